@@ -32,13 +32,14 @@ TEmit == /\ IsEvent("Emit") /\ emittedAfterFail' = (emittedAfterFail \/ (failed 
          /\ UNCHANGED <<pos, inOp, failed, drew, seen, stream, streamVals>>
 TEnd == /\ IsEvent("OpEnd") /\ inOp /\ inOp' = FALSE
         /\ Chk((failed \/ Ev.entfail = 1) => (Ev.rc # 1 /\ ~emittedAfterFail))                       \* fail closed
-        /\ Chk(Ev.rc = 1 => Ev.draws >= 1)                                                           \* takes its randomness from the source
-        /\ LET key == <<Ev.op, stream>> IN
-           IF Ev.rc = 1 /\ Ev.failat = 0
+        /\ Chk((Ev.rc = 1 /\ Ev.persist = 0) => Ev.draws >= 1)                                       \* takes its randomness from the source (a persistent context may have drawn it earlier)
+        /\ IF Ev.rc = 1 /\ Ev.failat = 0
            THEN /\ Chk(\A s \in seen : (s[1] = Ev.op /\ s[3] = Ev.rep) => ((s[2] = stream) <=> (s[4] = Ev.eph)))   \* same stream <=> same value
-                /\ Chk(Ev.eph \notin streamVals)                                                     \* no ephemeral value repeats within a stream
-                /\ seen' = seen \cup {<<Ev.op, stream, Ev.rep, Ev.eph>>} /\ streamVals' = streamVals \cup {Ev.eph}
-           ELSE UNCHANGED <<seen, streamVals>>
+                /\ seen' = seen \cup {<<Ev.op, stream, Ev.rep, Ev.eph>>}
+           ELSE UNCHANGED seen
+        /\ IF Ev.rc = 1 /\ (Ev.failat = 0 \/ Ev.persist = 1)          \* a context that outlives a failed draw must not fall back on randomness it has already used
+           THEN Chk(Ev.eph \notin streamVals) /\ streamVals' = streamVals \cup {Ev.eph}         \* no ephemeral value repeats within a stream
+           ELSE UNCHANGED streamVals
         /\ UNCHANGED <<pos, failed, drew, emittedAfterFail, stream>>
 TReset == IsEvent("Reset") /\ inOp' = FALSE /\ UNCHANGED <<pos, failed, drew, emittedAfterFail, seen, stream, streamVals>>
 TNewGroup == IsEvent("Group") /\ seen' = {} /\ inOp' = FALSE /\ UNCHANGED <<pos, failed, drew, emittedAfterFail, stream, streamVals>>
